@@ -11,8 +11,11 @@ package main
 
 import (
 	"fmt"
+	"os" // DEVONLY
+	"sort"
 	"strings"
 
+	"diagonal.works/b6"
 	"verif/kit"
 	wk "verif/worldkit"
 )
@@ -33,8 +36,17 @@ func main() {
 				order = []int{0, 2, 6, 1, 3, 4, 5, 7, 8}
 			}
 			n := kit.Product(rad)
-			return kit.FuncSpace{N: n * int64(ns), F: func(i int64) kit.Result {
+			fam := familyCases(tier, order)
+			menuCases := n * int64(ns)
+			if os.Getenv("C01_DEV_FAMILY_ONLY") != "" { // DEVONLY
+				menuCases = 0 // DEVONLY
+			} // DEVONLY
+			return kit.FuncSpace{N: menuCases + int64(len(fam)), F: func(i int64) kit.Result {
 				var r kit.Result
+				if i >= menuCases {
+					runFamily(&r, fam[i-menuCases], i-menuCases)
+					return r
+				}
 				sch := wk.Schemes[order[i/n]]
 				choice := kit.Digits(i%n, rad)
 				spec := wk.Expand(slots, choice, sch)
@@ -52,32 +64,72 @@ func main() {
 				if i%997 == 0 {
 					r.Sample = map[string]string{"scheme": sch.Name, "spec": spec.String()}
 				}
-				w, err := wk.Compact(spec, 1)
-				if err != nil {
-					r.Violate("build-error", "scheme %s: %v\nspec: %s", sch.Name, err, spec)
-					r.Outcome = "build-error"
-					return r
-				}
-				ids := wk.Universe(sch)
-				opts := &wk.DumpOptions{IDs: ids, NoFeatureRefs: true, Skip: []string{"refs", "rels:", "colls:", "areas:", "trav:", "find:", "loc:path/", "loc:area/", "loc:relation/"}}
-				got := wk.DumpWorld(w, opts)
-				want := wk.NewRef(spec).ExpectedDump(ids, nil, true, false)
-				diffs := wk.Diff(got, want, false)
-				r.Outcome = fmt.Sprintf("ok:%d-features", len(spec))
-				if len(diffs) > 0 {
-					cls := map[string]bool{}
-					for _, d := range diffs {
-						cls[classify(d)] = true
+				if diffs, ok := roundTrip(&r, spec, wk.Universe(sch), "scheme "+sch.Name, ""); ok {
+					r.Outcome = fmt.Sprintf("ok:%d-features", len(spec))
+					if len(diffs) > 0 {
+						report(&r, diffs, "", "scheme %s %s\nspec: %s", sch.Name, strings.Join(wk.ChoiceNames(slots, choice), " "), spec)
 					}
-					for c := range cls {
-						r.Violate(c, "scheme %s %s\nspec: %s\n%s", sch.Name, strings.Join(wk.ChoiceNames(slots, choice), " "), spec, strings.Join(diffs, "\n"))
-					}
-					r.Outcome = "diff"
 				}
 				return r
-			}}, fmt.Sprintf("%d menu worlds x %d ID schemes", n, ns)
+			}}, fmt.Sprintf("%d menu worlds x %d ID schemes + %d distinct multi-polygon area worlds (%s, x the same %d ID schemes)", n, ns, len(fam), famBoundFor(tier), ns)
 		},
 	})
+}
+
+// roundTrip builds the compact index of the spec, loads it and compares the
+// dump with the reference world. ok=false: the build failed (violation recorded).
+func roundTrip(r *kit.Result, spec wk.Spec, ids []b6.FeatureID, what string, classSuffix string) ([]string, bool) {
+	w, err := wk.Compact(spec, 1)
+	if err != nil {
+		r.Violate("build-error"+classSuffix, "%s: %v\nspec: %s", what, err, spec)
+		r.Outcome = "build-error"
+		return nil, false
+	}
+	opts := &wk.DumpOptions{IDs: ids, NoFeatureRefs: true, Skip: []string{"refs", "rels:", "colls:", "areas:", "trav:", "find:", "loc:path/", "loc:area/", "loc:relation/"}}
+	got := wk.DumpWorld(w, opts)
+	want := wk.NewRef(spec).ExpectedDump(ids, nil, true, false)
+	return wk.Diff(got, want, false), true
+}
+
+// report records one violation per class of differing observation.
+func report(r *kit.Result, diffs []string, classSuffix string, format string, a ...interface{}) {
+	var classes []string
+	seen := map[string]bool{}
+	for _, d := range diffs {
+		if c := classify(d) + classSuffix; !seen[c] {
+			seen[c] = true
+			classes = append(classes, c)
+		}
+	}
+	sort.Strings(classes)
+	for _, c := range classes {
+		r.Violate(c, format+"\n%s", append(a, strings.Join(diffs, "\n"))...)
+	}
+	r.Outcome = "diff"
+}
+
+// runFamily runs one world of the multi-polygon area family (family.go).
+func runFamily(r *kit.Result, c famCase, fi int64) {
+	spec := c.Spec()
+	valid, dropped := wk.ValidSubset(spec)
+	if len(dropped) > 0 || valid.String() != spec.String() {
+		// every world of the family is meant to be valid as given
+		r.Violate("harness:area-family-spec-not-valid", "%s\nspec: %s\ndropped: %v", c, spec, dropped)
+		r.Outcome = "harness-error"
+		return
+	}
+	r.Nontrivial = true
+	r.Key = spec.String()
+	if fi%61 == 0 {
+		r.Sample = map[string]string{"family": c.String(), "spec": spec.String()}
+	}
+	suffix := ":" + c.encoding()
+	if diffs, ok := roundTrip(r, spec, c.IDs(spec), c.String(), suffix); ok {
+		r.Outcome = fmt.Sprintf("ok:area-family:%s:%d-polygons", c.encoding(), len(c.kinds))
+		if len(diffs) > 0 {
+			report(r, diffs, suffix, "%s\nspec: %s", c, spec)
+		}
+	}
 }
 
 // classify names the failing observation: section kind + feature type.
